@@ -146,11 +146,18 @@ func c02Direct(driver string, shard, nshards int) vh.Unit {
 			vsched.ResetClock(0)
 			st := vh.NewStore(driver)
 			now := vsched.Now()
-			st.SetNode(store.Node{ID: "c", LastSeen: now.Add(-c.elapsed), IsHost: c.isHost})
-			st.SetNode(store.Node{ID: "h1", IsHost: true, LastSeen: now})
-			st.SetNode(store.Node{ID: "h2", IsHost: true, LastSeen: now})
+			// the payout address a node *announces* is not what decides its ledger entry (the wallet
+			// link or the trial balance does): every other case has client, first host and the
+			// wallet-sharing host announce the same address, the second host another one
+			pa, pb := "", ""
+			if i%2 == 0 {
+				pa, pb = "0x00000000000000000000000000000000000000AA", "0x00000000000000000000000000000000000000bb"
+			}
+			st.SetNode(store.Node{ID: "c", LastSeen: now.Add(-c.elapsed), IsHost: c.isHost, Payout: store.Account(pa)})
+			st.SetNode(store.Node{ID: "h1", IsHost: true, LastSeen: now, Payout: store.Account(pa)})
+			st.SetNode(store.Node{ID: "h2", IsHost: true, LastSeen: now, Payout: store.Account(pb)})
 			st.SetNode(store.Node{ID: "p", IsHost: false, LastSeen: now})
-			st.SetNode(store.Node{ID: "s", IsHost: true, LastSeen: now})
+			st.SetNode(store.Node{ID: "s", IsHost: true, LastSeen: now, Payout: store.Account(pa)})
 			st.AddNodeBalance("c", big.NewInt(50))
 			st.AddNodeBalance("h1", big.NewInt(3))
 			st.AddAccountNode("W2", "h2")
